@@ -134,11 +134,7 @@ def nontrivial(case, obs):
         isinstance(s, list) and len(s) == 4 and sum(s[1]) > 0 for s in obs[0])
 
 def classify(case, obs, model, verdict, corr, detail=None):
-    d = sx.rec(case)
-    if isinstance(detail, int) and detail < len(d["ops"]):
-        o = d["ops"][detail]
-        if o[0] == "fill" and "nan" in o[1]: return "F19"      # first rejected step is a single fill of a NaN
-    return None
+    return None      # F19 (fill(NaN) counted as overflow) was repaired in /repo (f3711c2): a return of it is a violation again
 
 def shrink(case):
     d = sx.rec(case)
